@@ -82,6 +82,7 @@ type dictionary struct {
 	status    intClass // 200..299
 	maxAge    intClass // -1..86400
 	sizes     intClass // 2..1200: list lengths, repetition counts
+	bytes     intClass // 1201..20000: byte lengths (of a joined header list, say)
 	badMaxAge intClass // outside -1..86400 (documented as prohibited)
 	badStatus intClass // outside 200..299 (documented as prohibited)
 	files     int
@@ -322,6 +323,8 @@ func loadDict() {
 		}
 		if n >= 2 && n <= 1200 {
 			addI(&dict.sizes, n, nv)
+		} else if n > 1200 && n <= 20000 {
+			addI(&dict.bytes, n, nv)
 		}
 	}
 }
@@ -372,5 +375,5 @@ func foldInt(e ast.Expr) (int64, bool) {
 
 func (d dictionary) summary() map[string]int {
 	return map[string]int{"files": d.files, "strings": len(d.any.all), "novel_strings": len(d.any.novel), "origins": len(d.origins.all), "hosts": len(d.hosts.all), "schemes": len(d.schemes.all), "tokens": len(d.tokens.all),
-		"ports": len(d.ports.all), "novel_ports": len(d.ports.novel), "status": len(d.status.all), "max_age": len(d.maxAge.all), "sizes": len(d.sizes.all), "out_of_range_max_age": len(d.badMaxAge.all), "out_of_range_status": len(d.badStatus.all)}
+		"ports": len(d.ports.all), "novel_ports": len(d.ports.novel), "status": len(d.status.all), "max_age": len(d.maxAge.all), "sizes": len(d.sizes.all), "byte_lengths": len(d.bytes.all), "out_of_range_max_age": len(d.badMaxAge.all), "out_of_range_status": len(d.badStatus.all)}
 }
